@@ -232,7 +232,7 @@ def converter_error_discipline(ctx: Ctx) -> None:
     ctx.floor("registered converters analysed", len(roots), 16)
     for tp, fi, allowed in roots:
         esc = mr.escaping(fi)
-        bad = {e: o for e, o in esc.items() if not mr.hier.catches(allowed, e)}
+        bad = {e: orgs[0] for e, orgs in esc.items() if not mr.hier.catches(allowed, e)}
         ctx.ob(f"{tp}: {fi.qual.split(':')[1]} raises only {allowed}", not bad, at=fi, construct=f"may-raise {tp}",
                msg=f"may also raise {sorted(bad)}: ConverterFactory.deserialize suppresses only ConverterError, so this aborts the fall-through to the next candidate type; "
                    + "; ".join(" <- ".join(o.chain()[:3]) for o in bad.values()), witness={e: o.chain() for e, o in bad.items()})
